@@ -475,3 +475,18 @@ def canary_c08():
     while not sim.is_done():
         sim.step()
     check("consumer_sees_7", int(st.register_file.registers[6]) == 7)
+
+
+# ---- C08: with hazard detection off a lone instruction still has its full architectural effect -- control transfers
+# in particular are still resolved (every target, incl. address 0), loads/stores still fault as the ISA says
+from contracts.c02_pipeline import single_instruction
+
+
+def c08_single(mn):
+    @unit("C08/single-instruction/detection-off/" + mn, expect_reach=("normal",))
+    def u():
+        single_instruction(mn, detect=False)
+
+
+for _mn in ("jalr", "jal", "beq", "bne", "blt", "bge", "bltu", "bgeu", "lw", "sw", "add"):
+    c08_single(_mn)
